@@ -271,7 +271,10 @@ Proof.
       assert (lx_wf z1) as (_ & ? & _) by eauto using adv_wf. lia. }
     cbn beta. intros h _.
     pose proof (adv_lpos_le _ _ Hz2) as Hle.
-    destruct (h =? html_hash_Script).
+    destruct (h =? html_hash_Script); [|cbn [safe fst]; split; [exact Haz2|split; [lia|exact I]]].
+    assert (Hwz2 : lx_wf z2) by eauto using adv_wf.
+    destruct (pkr0 z2 Hwz2) as (cz & Hcz & _). rewrite Hcz. cbn [rbind].
+    destruct (is_tagend cz || eof0 z2 cz).
     - destruct (negb isend) eqn:En; [cbn [safe fst]; split; [exact Haz2|split; [lia|exact I]]|].
       destruct (negb ins); cbn [safe fst sum_adv].
       + apply negb_false_iff in En. eapply (adv_rewind zs s z2); [exact Ha| |].
